@@ -158,7 +158,12 @@ class RefModel:
                 else:
                     unk.append(S.show(e))
             else:
-                unk.append(S.show(e))
+                # a local that this __cinit__ also stores into a field denotes that field
+                same = [f for f, lst in self.field_stores(cname).items() if f != "_hash" and any(kk is k and v == e for kk, v, _c, _s, _e in lst)]
+                if len(same) == 1:
+                    fields.add(same[0])
+                else:
+                    unk.append(S.show(e))
         return fields, disc, unk
 
     # ------------------------------------------------------------------ returns
